@@ -167,8 +167,74 @@ def applicable_concs(inst):
     return out
 
 
+# ------------------------------------------------------------------ options / scalings (concretisation axes)
+SCALES = [2.0 ** -20, 2.0 ** -10, 2.0 ** 10]
+NONSMOOTH = ('pdhg', 'admm', 'adu', 'dpdc', 'dr', 'fb', 'pg', 'apg')
+ISTEP_FORMS = ['array', 'list', 'element']
+
+
+def _fq(fr):
+    fr = Fraction(fr)
+    return [fr.numerator, fr.denominator]
+
+
+def _sf(fr, s):
+    """functional record of  x -> s^2 f(x/s)  (so that prox_{tau f_s}(s v) = s prox_{tau f}(v)):
+    translations and box bounds scale by s, the weight of an L1 term by s, squared norms keep their weight."""
+    out = dict(fr)
+    if fr['t']:
+        out['t'] = [_fq(qfr(q) * s) for q in fr['t']]
+    if fr['k'] == 'L1':
+        out['c'] = _fq(qfr(fr['c']) * s)
+    if fr['k'] == 'Box':
+        out['lo'], out['hi'] = _fq(qfr(fr['lo']) * s), _fq(qfr(fr['hi']) * s)
+    return out
+
+
+def scale_inst(inst, s):
+    """The instance at scale s (a power of two, so every float involved stays exact) and the factor by which its
+    iterates scale.  Non-smooth problems: the variables are scaled (x, y -> s x, s y; L and the step sizes stay);
+    linear systems: operator AND data are scaled by s, step sizes by 1/s^2 (the iterates do not change);
+    backtracking steepest descent / mlem: data and start are scaled (iterates scale by s).  All relations the
+    properties state are invariant under these scalings; an absolute tolerance inside a solver is not."""
+    s = Fraction(s)
+    sol = inst['solver']
+    out = dict(inst)
+    vs = lambda v: [_fq(qfr(q) * s) for q in v]
+    if sol in NONSMOOTH:
+        out.update(f=_sf(inst['f'], s), gs=[_sf(g, s) for g in inst['gs']], h=_sf(inst['h'], s),
+                   x0=vs(inst['x0']), y0=vs(inst['y0']))
+        return out, float(s)
+    if sol in ('sdbt', 'mlem'):
+        out.update(b=[vs(b) for b in inst['b']], x0=vs(inst['x0']), sol=vs(inst['sol']))
+        return out, float(s)
+    out.update(Ls=[[vs(r) for r in M] for M in inst['Ls']], b=[vs(b) for b in inst['b']])
+    if sol in ('landweber', 'sd'):
+        out['tau'] = _fq(qfr(inst['tau']) / (s * s))
+    if sol == 'kaczmarz':
+        out['sig'] = [_fq(qfr(q) / (s * s)) for q in inst['sig']]
+    return out, 1.0
+
+
+def _istep(P, form):
+    """inner_stepsizes of adupdates as scalars / constant arrays / lists / space elements (same abstract value)."""
+    if not form or form == 'scalar':
+        return P.sig
+    out = []
+    for j, v in enumerate(P.sig):
+        m = len(P.inst['Ls'][j])
+        if form == 'array':
+            out.append(np.full(m, v))
+        elif form == 'list':
+            out.append([v] * m)
+        else:
+            out.append(P.Ls[j].range.element(np.full(m, v)))
+    return out
+
+
 # ------------------------------------------------------------------ real runs
-def run_real(inst, conc, variant, segments, x_start=None, y_start=None, pass_state=True, default_steps=False):
+def run_real(inst, conc, variant, segments, x_start=None, y_start=None, pass_state=True, default_steps=False,
+             opts=None):
     """Run the real solver of `inst` for sum(segments) iterations, as len(segments) consecutive calls.
 
     variant: 'opt' (the solver) | 'simple' (the `_simple` sibling).
@@ -176,9 +242,26 @@ def run_real(inst, conc, variant, segments, x_start=None, y_start=None, pass_sta
     doubleprox_dc); for pdhg additionally x_relax and y if pass_state.
     Returns dict(its=[iterate per callback], x=final x, y=final dual or None, xr=.., ncb=[callbacks per call],
                  err=str or None).  `_simple` siblings without a callback are re-run with niter = 1..N.
+    opts (concretisation of options, same abstract instance): scale (power of two, see scale_inst; the results are
+    scaled back), istep (form of adupdates' inner_stepsizes), lam_callable (relaxation passed as a function),
+    ls_object (ConstantLineSearch instead of a float), gamma_primal / gamma_dual (accelerated pdhg).
     """
+    opts = dict(opts or {})
+    if opts.get('scale'):
+        sc = opts.pop('scale')
+        inst2, xs = scale_inst(inst, sc)
+        r = run_real(inst2, conc, variant, segments,
+                     x_start=None if x_start is None else np.asarray(x_start, dtype=float) * xs,
+                     y_start=None if y_start is None else np.asarray(y_start, dtype=float) * xs,
+                     pass_state=pass_state, default_steps=default_steps, opts=opts)
+        r['its'] = [u / xs for u in r['its']]
+        for fld in ('x', 'y', 'xr'):
+            if r[fld] is not None:
+                r[fld] = r[fld] / xs
+        return r
     P = Problem(inst, conc)
     sol = inst['solver']
+    relax = (lambda _k: P.th) if opts.get('lam_callable') else P.th
     x0 = vec(inst['x0']) if x_start is None else np.array(x_start, dtype=float)
     out = {'its': [], 'x': None, 'y': None, 'xr': None, 'ncb': [], 'err': None}
     try:
@@ -188,7 +271,7 @@ def run_real(inst, conc, variant, segments, x_start=None, y_start=None, pass_sta
             for k in range(1, N + 1):
                 x = P.x(x0)
                 if sol == 'adu':
-                    adupdates_simple(x, P.gs, P.Ls, P.tau, P.sig, k)
+                    adupdates_simple(x, P.gs, P.Ls, P.tau, _istep(P, opts.get('istep')), k)
                 else:
                     y = P.ran(0, vec(inst['y0']) if y_start is None else y_start)
                     doubleprox_dc_simple(x, y, P.f, P.h, P.gs[0], P.Ls[0], k, P.tau, P.sig[0])
@@ -211,7 +294,7 @@ def run_real(inst, conc, variant, segments, x_start=None, y_start=None, pass_sta
                 fn = admm_linearized if variant == 'opt' else admm_linearized_simple
                 fn(x, P.f, P.gs[0], P.Ls[0], P.tau, P.sig[0], seg, callback=rec)
             elif sol == 'adu':
-                adupdates(x, P.gs, P.Ls, P.tau, P.sig, seg, callback=rec)
+                adupdates(x, P.gs, P.Ls, P.tau, _istep(P, opts.get('istep')), seg, callback=rec)
             elif sol == 'dpdc':
                 doubleprox_dc(x, y, P.f, P.h, P.gs[0], P.Ls[0], seg, P.tau, P.sig[0], callback=rec)
             elif sol == 'pdhg':
@@ -222,19 +305,22 @@ def run_real(inst, conc, variant, segments, x_start=None, y_start=None, pass_sta
                     np.random.seed(12345)
                     S.pdhg(x, P.f, P.gs[0], P.Ls[0], seg, theta=P.th, callback=rec, **kw)
                 else:
+                    for gk in ('gamma_primal', 'gamma_dual'):
+                        if opts.get(gk):
+                            kw[gk] = opts[gk]
                     S.pdhg(x, P.f, P.gs[0], P.Ls[0], seg, tau=P.tau, sigma=P.sig[0], theta=P.th, callback=rec, **kw)
             elif sol == 'dr':
                 if default_steps:      # douglas_rachford_pd_stepsize
                     np.random.seed(12345)
                     S.douglas_rachford_pd(x, P.f, P.gs, P.Ls, seg, callback=rec, lam=P.th)
                 else:
-                    S.douglas_rachford_pd(x, P.f, P.gs, P.Ls, seg, tau=P.tau, sigma=P.sig, callback=rec, lam=P.th)
+                    S.douglas_rachford_pd(x, P.f, P.gs, P.Ls, seg, tau=P.tau, sigma=P.sig, callback=rec, lam=relax)
             elif sol == 'fb':
                 S.forward_backward_pd(x, P.f, P.gs, P.Ls, P.h, P.tau, P.sig, seg, callback=rec)
             elif sol in ('pg', 'apg'):
                 g = P.gs[0] * P.Ls[0]
                 if sol == 'pg':
-                    S.proximal_gradient(x, P.f, g, P.tau, seg, callback=rec, lam=P.th)
+                    S.proximal_gradient(x, P.f, g, P.tau, seg, callback=rec, lam=relax)
                 else:
                     S.accelerated_proximal_gradient(x, P.f, g, P.tau, seg, callback=rec)
             elif sol == 'landweber':
@@ -250,12 +336,13 @@ def run_real(inst, conc, variant, segments, x_start=None, y_start=None, pass_sta
             elif sol in ('sd', 'sdbt'):
                 obj = S.L2NormSquared(P.Ls[0].range).translated(P.rhs(0)) * P.Ls[0]
                 if sol == 'sd':
-                    ls = P.tau
+                    ls = S.ConstantLineSearch(P.tau) if opts.get('ls_object') else P.tau
                 else:
                     if bt is None:
                         bt = S.BacktrackingLineSearch(obj, tau=0.5, discount=P.th)
                     ls = bt
-                S.steepest_descent(obj, x, line_search=ls, maxiter=seg, callback=rec)
+                S.steepest_descent(obj, x, line_search=ls, maxiter=seg, callback=rec,
+                                   **({'tol': 0} if sol == 'sd' else {}))      # constant step: never return early
             else:
                 raise ValueError(sol)
             out['its'] += rec.its
@@ -413,8 +500,18 @@ def _fparams(rnd, kind, n):
     return p
 
 
-def rel_desc(rnd, solver, fk, gk):
-    """A random instance description of a family (solver, f kind, g kind)."""
+def rel_option_name(d):
+    o = d.get('opts', {})
+    parts = []
+    if o.get('istep', 'scalar') != 'scalar':
+        parts.append('inner_stepsizes=nonscalar')
+    parts += [k for k in ('random', 'lam_callable', 'projection', 'ls_object', 'omega_list') if o.get(k)]
+    return '+'.join(parts) or 'default'
+
+
+def rel_desc(rnd, solver, fk, gk, force=None):
+    """A random instance description of a family (solver, f kind, g kind); force = 'istep=<form>' or the name of
+    a boolean option that must be switched on."""
     n = rnd.randint(2, 4)
     m = rnd.randint(1, 4)
     d = {'solver': solver, 'n': n, 'niter': rnd.randint(2, 20),
@@ -464,7 +561,65 @@ def rel_desc(rnd, solver, fk, gk):
         d['x0'] = [rnd.randint(1, 4) for _ in range(n)]
     d['theta'] = rnd.choice([1.0, 1.0, 0.5, 0.0])
     d['lam'] = rnd.choice([1.0, 0.5])
+    # option forms (every keyword option of the solvers in scope that does not change the claim)
+    o = {}
+    if solver == 'adu':
+        if any(g['kind'] in ARRAY_STEP_OK for g in d['g']):
+            o['istep'] = rnd.choice(['scalar', 'array', 'list', 'element', 'nonconst', 'nonconst'])
+            if o['istep'] == 'nonconst':      # genuinely different step per component
+                o['istep_vals'] = [[d['sigma'] * rnd.choice([1.0, 0.5, 0.25]) for _ in range(len(Ms[0]) * len(Ms))]
+                                   for Ms in d['Ms']]
+        o['random'] = rnd.random() < 0.25
+        o['np_seed'] = rnd.randrange(2 ** 31)
+    if solver == 'pg':
+        o['lam_callable'] = rnd.random() < 0.5
+    if solver in ('landweber', 'kaczmarz', 'sd'):
+        o['projection'] = rnd.random() < 0.35
+    if solver == 'sd':
+        o['ls_object'] = rnd.random() < 0.5
+    if solver == 'kaczmarz':
+        o['omega_list'] = rnd.random() < 0.5
+    if force:
+        if force.startswith('istep='):
+            o['istep'] = force.split('=')[1]
+            if o['istep'] == 'nonconst':
+                o['istep_vals'] = [[d['sigma'] * rnd.choice([1.0, 0.5, 0.25]) for _ in range(len(Ms[0]) * len(Ms))]
+                                   for Ms in d['Ms']]
+        else:
+            o[force] = True
+    d['opts'] = o
     return d
+
+
+ARRAY_STEP_OK = ('L1', 'cL1', 'L1t', 'L2sq', 'Box')      # conjugate proximals that accept a non-scalar step
+
+
+def _rel_isteps(d, Ls):
+    o = d.get('opts', {})
+    form = o.get('istep', 'scalar')
+    out = []
+    for j, L in enumerate(Ls):
+        sp = L.range
+        if form == 'scalar' or d['g'][j]['kind'] not in ARRAY_STEP_OK:
+            out.append(d['sigma'])       # (conjugate proximals of L2 / KL / group-L1 take scalar steps only)
+            continue
+        size = sum(len(M) for M in d['Ms'][j])
+        vals = np.array(o['istep_vals'][j], dtype=float) if form == 'nonconst' else np.full(size, d['sigma'])
+        if isinstance(sp, odl.ProductSpace):
+            k = len(sp)
+            el = sp.element([vals[i::k].copy() for i in range(k)])
+            out.append(el)                   # product-space ranges: only the element form exists
+        elif form == 'list':
+            out.append([float(v) for v in vals])
+        elif form == 'element':
+            out.append(sp.element(vals.copy()))
+        else:
+            out.append(vals.copy())
+    return out
+
+
+def _nonneg(x):
+    x.ufuncs.maximum(0, out=x)
 
 
 def _rel_func(p, space):
@@ -504,6 +659,8 @@ def rel_run(d, variant, segments, pass_state=True):
     f = _rel_func(d['f'], dom)
     out = {'its': [], 'x': None, 'y': None, 'xr': None, 'ncb': [], 'err': None}
     x0 = np.array(d['x0'], dtype=float)
+    opts = d.get('opts', {})
+    proj = _nonneg if opts.get('projection') else None
 
     def mk_y():
         v = np.array(d['y0'], dtype=float)
@@ -520,7 +677,8 @@ def rel_run(d, variant, segments, pass_state=True):
             for k in range(1, N + 1):
                 x = dom.element(x0.copy())
                 if sol == 'adu':
-                    adupdates_simple(x, gs, Ls, d['tau'], [d['sigma']] * len(Ls), k)
+                    np.random.seed(opts.get('np_seed', 0))
+                    adupdates_simple(x, gs, Ls, d['tau'], _rel_isteps(d, Ls), k, random=bool(opts.get('random')))
                 else:
                     y = mk_y()
                     doubleprox_dc_simple(x, y, f, phi, gs[0], Ls[0], k, d['tau'], d['sigma'])
@@ -543,27 +701,32 @@ def rel_run(d, variant, segments, pass_state=True):
                 fn = admm_linearized if variant == 'opt' else admm_linearized_simple
                 fn(x, f, gs[0], Ls[0], d['tau'], d['sigma'], seg, callback=rec)
             elif sol == 'adu':
-                adupdates(x, gs, Ls, d['tau'], [d['sigma']] * len(Ls), seg, callback=rec)
+                np.random.seed(opts.get('np_seed', 0))
+                adupdates(x, gs, Ls, d['tau'], _rel_isteps(d, Ls), seg, random=bool(opts.get('random')), callback=rec,
+                          callback_loop=opts.get('callback_loop', 'outer'))
             elif sol == 'dpdc':
                 doubleprox_dc(x, y, f, phi, gs[0], Ls[0], seg, d['tau'], d['sigma'], callback=rec)
             elif sol == 'pdhg':
                 kw = {'x_relax': xr, 'y': y} if y is not None else {}
                 S.pdhg(x, f, gs[0], Ls[0], seg, tau=d['tau'], sigma=d['sigma'], theta=d['theta'], callback=rec, **kw)
             elif sol == 'landweber':
-                S.landweber(Ls[0], x, rhs, seg, omega=d['tau'], callback=rec)
+                S.landweber(Ls[0], x, rhs, seg, omega=d['tau'], projection=proj, callback=rec)
             elif sol == 'kaczmarz':
                 M = np.array(d['Ms'][0][0], dtype=float)
                 rows = [odl.MatrixOperator(M[i:i + 1].copy(), domain=dom) for i in range(M.shape[0])]
                 S.kaczmarz(rows, x, [r.range.element([d['b'][i]]) for i, r in enumerate(rows)], seg,
-                           omega=d['tau'], callback=rec)
+                           omega=[d['tau']] * len(rows) if opts.get('omega_list') else d['tau'], projection=proj,
+                           callback=rec, callback_loop=opts.get('callback_loop', 'outer'))
             elif sol == 'pg':
                 g = S.L2NormSquared(Ls[0].range).translated(rhs) * Ls[0]
-                S.proximal_gradient(x, f, g, d['tau'] / 2, seg, callback=rec, lam=d['lam'])
+                S.proximal_gradient(x, f, g, d['tau'] / 2, seg, callback=rec,
+                                    lam=(lambda _k: d['lam']) if opts.get('lam_callable') else d['lam'])
             elif sol == 'mlem':
                 S.mlem(Ls[0], x, Ls[0].range.element(np.array(d['b'], dtype=float)), seg, callback=rec)
             elif sol == 'sd':
                 obj = S.L2NormSquared(Ls[0].range).translated(rhs) * Ls[0]
-                S.steepest_descent(obj, x, line_search=d['tau'], maxiter=seg, callback=rec)
+                S.steepest_descent(obj, x, line_search=S.ConstantLineSearch(d['tau']) if opts.get('ls_object') else d['tau'],
+                                   maxiter=seg, tol=0, projection=proj, callback=rec)   # tol=0: no early return
             else:
                 raise ValueError(sol)
             out['its'] += rec.its
@@ -578,12 +741,13 @@ def rel_run(d, variant, segments, pass_state=True):
     return out
 
 
-def pair_event(kind_clause, solver, niter, A, B, na, nb, bits=20):
+def pair_event(kind_clause, solver, niter, A, B, na, nb, bits=20, start=None):
     """Quantise two iterate sequences (lists of float arrays) relative to the largest magnitude of the PAIR OF
-    RUNS (an entry that is exactly 0 in one run and 1e-17 in the other is rounding, not a difference);
+    RUNS including their common start point (an entry that is exactly 0 in one run and 1e-17 in the other is
+    rounding, not a difference; a run whose true iterates are all 0 is rounding relative to its start);
     None if not comparable (non-finite values)."""
     s = 1e-300
-    for u in list(A) + list(B):
+    for u in list(A) + list(B) + ([] if start is None else [start]):     # (start: the runs' common start point)
         u = np.asarray(u, dtype=float)
         if not np.all(np.isfinite(u)):
             return None
